@@ -173,6 +173,11 @@ class LogicEval:
                         if not self._block(st.body, env2, out, fn, depth):
                             return False
                     continue
+                if not _has_yield(st) and self._bucket(st.iter, env) is not None and not any(
+                        isinstance(n, (ast.Assign, ast.AugAssign, ast.Delete)) and any(isinstance(x, ast.Name) and isinstance(env.get(x.id), dict) for x in ast.walk(n))
+                        for b in st.body for n in ast.walk(b)):
+                    # a pass over the items of one bucket that emits nothing and rebinds no bucket (side effects on the items are C01.R7's business)
+                    continue
                 raise Unknown(f"{fn.name}: unsupported loop at line {st.lineno}: {norm(st)[:60]}")
             if isinstance(st, ast.Assign) and len(st.targets) == 1:
                 t = st.targets[0]
